@@ -35,7 +35,7 @@ type c20Line struct {
 var c20Known = map[string]string{
 	"print-num": "1\n", "print-str": "hi\n", "print-arith": "7\n", "expr-num": "5\n", "expr-arith": "3\n", "expr-str": "abc\n",
 	"expr-true": "true\n", "expr-nil": "nil\n", "rt-mid-line": "1\n", "rt-in-for": "0\n", "multi-var-print": "4\n", "multi-func": "16\n",
-	"multi-for": "0\n1\n", "rt-print-then-fail-in-func": "8\n", "long-print-ascii": c20Long(5000, "x") + "\n", "long-print-bangla": c20Long(1500, "\u0995") + "\n", "long-expr": "1401\n", "crlf-print": "42\n", "input-one": "p[hello]\n", "input-two": "abcd\n", "input-echo": "spaced out\n", "huge-print": c20Long(70000, "z") + "\n", "long-rt": c20Long(4090, "y") + "\n", "str-backslash": "a\\b\n",
+	"multi-for": "0\n1\n", "rt-print-then-fail-in-func": "8\n", "long-print-ascii": c20Long(5000, "x") + "\n", "long-print-bangla": c20Long(1500, "\u0995") + "\n", "long-expr": "1401\n", "print-open-brace-string": "{\n", "print-open-paren-string": "([\n", "multi-brace-in-property": "{\n", "crlf-print": "42\n", "input-one": "p[hello]\n", "input-two": "abcd\n", "input-echo": "spaced out\n", "huge-print": c20Long(70000, "z") + "\n", "long-rt": c20Long(4090, "y") + "\n", "str-backslash": "a\\b\n",
 }
 
 func c20Long(n int, unit string) string { return strings.Repeat(unit, n) }
@@ -118,6 +118,19 @@ var c20Pool = []c20Line{
 	// a line ending in CR LF
 	{"crlf-print", "print", KwPrint + " 41 + 1;\r"},
 	{"crlf-error", "rt", "nx;\r"},
+	// a literal too large for a number
+	{"lex-number-too-large", "lex", "1" + c20Long(400, "0") + ";"},
+	// indexing something that is not an array (strings of either representation)
+	{"rt-index-concat-string", "rt", "(\"\u0995\" + \"\u0996\")[2];"},
+	{"rt-index-literal-string", "rt", "\"abc\"[0];"},
+	{"rt-index-concat-string-far", "rt", "(\"a\" + \"b\")[5];"},
+	// a failing line that contains a bare return inside a function
+	{"rt-with-bare-return", "rt-nested", KwFun + " f() { " + KwReturn + "; } f(); nx;"},
+	{"rt-block-with-bare-return", "rt-nested", "{ " + KwFun + " f() { " + KwReturn + "; } f(); nx; }"},
+	// brackets that only occur inside strings
+	{"print-open-brace-string", "print", KwPrint + " \"{\";"},
+	{"print-open-paren-string", "print", KwPrint + " \"(\" + \"[\";"},
+	{"multi-brace-in-property", "multi", KwVar + " o = {}; o.k = \"{\"; " + KwPrint + " o.k;"},
 	// silent statements
 	{"silent-var", "silent", KwVar + " y = 5;"},
 	{"silent-block", "silent", "{ }"},
